@@ -33,6 +33,7 @@ class HeapExporter:
         self.keep = []
         self.work = []
         self.kinds = {}
+        self.incoherent = []      # dicts holding two keys that are equal NOW (keys mutated after insertion)
 
     def val(self, o):
         if o is None or o is True or o is False:
@@ -70,6 +71,7 @@ class HeapExporter:
             return ["l", [V(x) for x in o]]
         if t is dict:
             self.tally("dict")
+            self.coherent(o)
             return ["d", [[V(k), V(v)] for k, v in o.items()]]
         if t is set:
             self.tally("set")
@@ -111,6 +113,17 @@ class HeapExporter:
         kvs = [[V(k), V(v)] for k, v in items]
         return ["r", V(func), kvs] if state is None else ["r", V(func), kvs, V(state)]
 
+    def coherent(self, d):
+        """re-insert the keys one by one (what SETITEMS does on load): equal keys collapse"""
+        try:
+            fresh = {}
+            for k in d:
+                if k in fresh:
+                    self.incoherent.append({"size": len(d), "key_class": type(k).__name__, "key": str(k)[:40]})
+                fresh[k] = 1
+        except Exception as e:  # noqa: BLE001  an unhashable key now: also incoherent
+            self.incoherent.append({"size": len(d), "error": type(e).__name__})
+
     def export(self, root):
         r = self.val(root)
         while self.work:
@@ -123,6 +136,7 @@ def export_heap(root, with_kinds=False):
     e = HeapExporter()
     h = e.export(root)
     if with_kinds:
+        e.kinds["__incoherent__"] = e.incoherent
         return h, e.kinds
     return h
 
